@@ -147,8 +147,14 @@ class Check:
                     self.undecided.append(f"{base}: vacuity guard not refuted -- the contract of {contract.key} "
                                           "decides nothing on this tree")
                 continue
-            failed = [ob for ob in obs if ob.result == "failed"]
+            failed = [ob for ob in obs if ob.result == "failed" and not ob.meta.get("approx")]
             unknown = [ob for ob in obs if ob.result == "unknown"]
+            # refuted only on paths that went through an over-approximated operation: undecided
+            for ob in obs:
+                if ob.result == "failed" and ob.meta.get("approx"):
+                    ob.result = "unknown"
+                    ob.meta["reason"] = "refuted only under an over-approximation: " + "; ".join(ob.meta["approx"])[:300]
+                    unknown.append(ob)
             detail = {"paths": len(obs)}
             if obs[0].meta.get("ensures"):
                 detail["clause"] = obs[0].meta["ensures"]
